@@ -20,6 +20,8 @@ func runC20(c *Check) {
 	c.scratchFields()
 	c.onceFields()
 	c.oneOncePerField()
+	c.noRecycledResult()
+	c.guardedValueStaysUnderLock()
 	c.globalWriters()
 	c.tempFileCreation()
 	c.binrepImmutable()
